@@ -3,7 +3,7 @@
 From Coq Require Import List Bool Arith String Lia.
 Import ListNotations.
 From Mv Require Import Model.Entry Model.Reconcile Model.Safety Model.Controller Model.ControllerCheck
-     Proof.ControllerBase Proof.ControllerPause Proof.ControllerTerminate Proof.ControllerHalt Proof.ControllerFlush Proof.ControllerReset Proof.ControllerSaved.
+     Proof.ControllerBase Proof.ControllerPause Proof.ControllerTerminate Proof.ControllerHalt Proof.ControllerFlush Proof.ControllerReset Proof.ControllerSaved Proof.ControllerSound.
 Local Open Scope list_scope.
 
 Lemma run_pause : forall md manual sched st tr,
@@ -89,4 +89,81 @@ Proof.
   destruct (mon_run (tmon_step false) tmon_init tr) as [m|] eqn:E; [|discriminate].
   destruct (t_arch_unknown m) eqn:Eu; [reflexivity|].
   rewrite (tmon_strict_run _ _ _ E Eu) in Hs. discriminate.
+Qed.
+
+(* ------------------------------------------------------------------ *)
+(* example schedules: the hypotheses of the theorems are satisfiable on
+   non-trivial executions *)
+Open Scope string_scope.
+Definition okres (c : oentry) : callres := {| r_ok := true; r_retry := false; r_content := c; r_changes := [] |}.
+Definition two_files : oentry := Some (EDir [("a", EFile false "h0"); ("b", EFile false "h1")]).
+
+(* create, one cycle that saves the ancestor, a poll event, a second cycle in
+   which alpha's root is seen emptied: the loop halts *)
+Definition halting_schedule : list action :=
+  [ACall 1 (CCreate false); AAcquire 1; AConn 1 true; AConn 1 true; AReturn 1;
+   ALoop LaTau; ALoop LaTau; ALoop LaTau; ALoop LaTau; ALoop LaTau; ALoop LaTau;
+   ALoop (LaEnter Alpha); ALoop (LaEnter Beta);
+   ALoop (LaExit Alpha (okres two_files)); ALoop (LaExit Beta (okres two_files));
+   ALoop LaTau; ALoop LaTau; ALoop LaTau; ALoop LaTau; ALoop LaTau; ALoop (LaChoice false); ALoop LaTau;
+   ALoop LaTau; ALoop (LaEnter Alpha); ALoop (LaEnter Beta); ALoop (LaExit Alpha (okres None));
+   ALoop (LaTrigger TrPoll); ALoop (LaExit Beta (okres None)); ALoop LaTau;
+   ALoop (LaEnter Beta); ALoop (LaEnter Alpha);
+   ALoop (LaExit Beta (okres two_files)); ALoop (LaExit Alpha (okres (Some (EDir []))));
+   ALoop LaTau; ALoop LaTau;
+   ALoop LaTau; ALoop LaTau; ALoop LaTau; ALoop LaTau; AObserveT; AObserveA].
+
+Lemma halting_example :
+  exists st tr, run (init_state TwoWaySafe false) halting_schedule = Some (st, tr)
+                /\ In (IHalt HaltEmptied) tr /\ status st = 1 /\ option_map lp (loop st) = Some LHalted
+                /\ arch_file st = Some two_files /\ check_halt TwoWaySafe tr = true.
+Proof.
+  destruct (run (init_state TwoWaySafe false) halting_schedule) as [[st tr]|] eqn:E; [|vm_compute in E; discriminate].
+  exists st, tr. split; [reflexivity|]. vm_compute in E. inv E. vm_compute. intuition.
+Qed.
+
+(* create, pause while the loop polls, a flush that fails while paused, restart,
+   resume, a waiting flush, terminate *)
+Definition lifecycle_schedule : list action :=
+  [ACall 1 (CCreate false); AAcquire 1; AConn 1 true; AConn 1 true; AReturn 1;
+   ALoop LaTau; ALoop LaTau; ALoop LaTau; ALoop LaTau; ALoop LaTau; ALoop LaTau;
+   ALoop (LaEnter Alpha); ALoop (LaEnter Beta);
+   ALoop (LaExit Alpha (okres two_files)); ALoop (LaExit Beta (okres two_files));
+   ALoop LaTau; ALoop LaTau; ALoop LaTau; ALoop LaTau; ALoop LaTau; ALoop (LaChoice false); ALoop LaTau;
+   ALoop LaTau; ALoop (LaEnter Alpha); ALoop (LaEnter Beta);
+   ACall 2 CPause; ASelect 2; AAcquire 2;
+   ALoop (LaTrigger TrCancel); ALoop (LaExit Alpha (okres None)); ALoop (LaExit Beta (okres None)); ALoop LaTau;
+   ALoop LaTau; ALoop LaTau; ALoop LaTau; ALoop LaTau; ALoop LaTau; ALoop LaTau; ALoop LaTau; ALoop LaTau;
+   AJoin 2; AReturn 2; AObserveS;
+   ACall 3 (CFlush true); ASelect 3; AAcquire 3; AReturn 3;
+   ACall 4 CShutdown; ASelect 4; AAcquire 4; AReturn 4; ANewManager; AObserveS; AObserveT;
+   ACall 5 CResume; ASelect 5; AAcquire 5; AConn 5 true; AConn 5 true; AReturn 5;
+   ALoop LaTau; ALoop LaTau; ALoop LaTau; ALoop LaTau; ALoop LaTau; ALoop LaTau;
+   ALoop (LaEnter Alpha); ALoop (LaEnter Beta);
+   ALoop (LaExit Alpha (okres two_files)); ALoop (LaExit Beta (okres two_files));
+   ALoop LaTau; ALoop LaTau; ALoop LaTau; ALoop LaTau; ALoop LaTau; ALoop (LaChoice false); ALoop LaTau;
+   ALoop LaTau; ALoop (LaEnter Alpha); ALoop (LaEnter Beta);
+   ACall 6 (CFlush true); ASelect 6; AAcquire 6; AFlushSend 6 FSend;
+   ALoop (LaTrigger TrFlush); ALoop (LaExit Alpha (okres None)); ALoop (LaExit Beta (okres None)); ALoop LaTau;
+   ALoop (LaEnter Alpha); ALoop (LaEnter Beta);
+   ALoop (LaExit Alpha (okres two_files)); ALoop (LaExit Beta (okres two_files));
+   ALoop LaTau; ALoop LaTau; ALoop LaTau; ALoop LaTau; ALoop LaTau; ALoop (LaChoice false); ALoop LaTau;
+   AFlushRecv 6 FAnswered; AReturn 6; AObserveA;
+   ACall 7 CTerminate; ASelect 7; AAcquire 7;
+   ALoop LaTau; ALoop (LaEnter Alpha); ALoop (LaEnter Beta);
+   ALoop (LaTrigger TrCancel); ALoop (LaExit Alpha (okres None)); ALoop (LaExit Beta (okres None)); ALoop LaTau;
+   ALoop LaTau; ALoop LaTau; ALoop LaTau; ALoop LaTau; ALoop LaTau; ALoop LaTau; ALoop LaTau; ALoop LaTau;
+   AJoin 7; AReturn 7; AObserveS; AObserveA;
+   ACall 8 CResume; ASelect 8; AReturn 8].
+
+Lemma lifecycle_example :
+  exists st tr, run (init_state TwoWaySafe false) lifecycle_schedule = Some (st, tr)
+                /\ In (Rt 2 CPause true) tr /\ In (Rt 3 (CFlush true) false) tr /\ In (Nm true) tr
+                /\ In (Rt 5 CResume true) tr /\ In (Rt 6 (CFlush true) true) tr /\ In (Rt 7 CTerminate true) tr
+                /\ In (Rt 8 CResume false) tr
+                /\ sess_file st = None /\ arch_file st = None /\ loop st = None
+                /\ check_c29_events TwoWaySafe tr = true.
+Proof.
+  destruct (run (init_state TwoWaySafe false) lifecycle_schedule) as [[st tr]|] eqn:E; [|vm_compute in E; discriminate].
+  exists st, tr. split; [reflexivity|]. vm_compute in E. inv E. vm_compute. intuition.
 Qed.
